@@ -397,7 +397,7 @@ def reseed(ctx, c, k):
 def run(ctx):
     broken, log = ctx.prove("Properties_C05.v", "Properties_C05")
     exe, drv = build(ctx)
-    n = 330 if not ctx.thorough else 5000
+    n = 280 if not ctx.thorough else 3000
     corpus = load_corpus()
     cases = list(corpus)
     cases += [gen_case(ctx.rng) for _ in range(n)]
